@@ -6,12 +6,16 @@ import socket
 import time  # noqa: F401
 import gc  # noqa: F401
 
-from threading import Lock, RLock, Condition
+from threading import Lock, RLock, Condition, get_ident
 from rpyc.lib import spawn, Timeout, get_methods, get_id_pack
 from rpyc.lib.compat import pickle, next, maxint, select_error, acquire_lock  # noqa: F401
 from rpyc.lib.colls import WeakValueDict, RefCountingColl
 from rpyc.core import consts, brine, vinegar, netref
 from rpyc.core.async_ import AsyncResult
+
+
+# second byte of an encoded (MSG_REQUEST, seq, args) message: the message kind travels as an immediate integer
+_MSG_REQUEST_BYTE = brine.dump(consts.MSG_REQUEST)
 
 
 class PingError(Exception):
@@ -148,6 +152,7 @@ class Connection(object):
         self._recvlock = Lock()
         self._sendlock = Lock()
         self._cleanup_lock = RLock()
+        self._replies_in_transit = []
         self._proxy_count_lock = Lock()
         self._cleaned_up = False
         self._recv_event = Condition()
@@ -390,23 +395,46 @@ class Connection(object):
         else:
             raise ValueError("invalid message type: %r" % (msg,))
 
-    def serve(self, timeout=1, wait_for_lock=True):  # serving
+    def serve(self, timeout=1, wait_for_lock=True, until=None):  # serving
         """Serves a single request or reply that arrives within the given
         time frame (default is 1 sec). Note that the dispatching of a request
         might trigger multiple (nested) requests, thus this function may be
         reentrant.
+
+        :param until: an optional predicate (used by :class:`AsyncResult` when waiting for its reply): serving is
+                      pointless once it holds, so the call returns instead of waiting for the transport. Another
+                      thread may receive and process the very reply the caller is waiting for.
 
         :returns: ``True`` if a request or reply were received, ``False``
                   otherwise.
         """
         timeout = Timeout(timeout)
         with self._recv_event:
+            if until is not None and until():
+                return False
             if not self._recvlock.acquire(False):
                 return wait_for_lock and self._recv_event.wait(timeout.timeleft())
+            me = get_ident()
+            if wait_for_lock and any(t != me for t in list(self._replies_in_transit)):
+                # another thread has taken a reply off the transport and is about to publish it (maybe the one the
+                # caller waits for): it notifies when that is done, so wait for it rather than for the transport.
+                # (Looked at while holding the receive lock: nobody is between receiving a reply and counting it.)
+                self._recvlock.release()
+                return self._recv_event.wait(timeout.timeleft())
+        is_reply = False
+        me = get_ident()
         try:
+            if until is not None and until():
+                # published while we were getting the lock (whoever did it had taken the reply off the transport
+                # before, so it can no longer arrive here)
+                return False
             data = self._channel.poll(timeout) and self._channel.recv()
             if not data:
                 return False
+            is_reply = data[1:2] != _MSG_REQUEST_BYTE
+            if is_reply:
+                in_transit_before = self._replies_in_transit.count(me)
+                self._replies_in_transit.append(me)
         except EOFError:
             self.close()
             raise
@@ -414,8 +442,24 @@ class Connection(object):
             self._recvlock.release()
             with self._recv_event:
                 self._recv_event.notify_all()
-        self._dispatch(data)
+        try:
+            self._dispatch(data)
+        finally:
+            if is_reply and self._replies_in_transit.count(me) > in_transit_before:
+                # the reply was not published (nobody waits for it any more, or it could not be decoded)
+                self._reply_published()
         return True
+
+    def _reply_published(self):
+        """The reply this thread took off the transport is no longer in transit: its :class:`AsyncResult` calls this
+        as soon as the outcome is there (before it runs callbacks, which may take their time), :func:`serve` calls it
+        for a reply that nobody took. Wakes the threads that waited for this rather than for the transport."""
+        with self._recv_event:
+            try:
+                self._replies_in_transit.remove(get_ident())
+            except ValueError:
+                return  # not dispatched by serve()
+            self._recv_event.notify_all()
 
     def poll(self, timeout=0):  # serving
         """Serves a single transaction, should one arrives in the given
